@@ -788,7 +788,8 @@ def _random_wide(rng, depth, typevars):
     if r == 2:
         return ["asynctask", sub()]
     if r == 3:
-        return ["method", rng.choice(["append", "copy", "nope"]), sub()]
+        # Composite.__eq__ applies a bare == to the value it holds: not over a literal that is not == itself
+        return ["method", rng.choice(["append", "copy", "nope"]), without_flaky(sub())]
     if r == 4:
         return ["overloaded", [_random_callable_wide(rng, sub, typevars) for _ in range(rng.randrange(2, 4))]]
     if r in (5, 6):
@@ -897,6 +898,22 @@ def _builds_equal(s1, s2) -> bool:
     return False
 
 
+def has_flaky(spec) -> bool:
+    """Does the value contain a literal that is not == itself (FlakyEq: __eq__ raises)?"""
+    return "FlakyEq" in repr(spec)
+
+
+def without_flaky(spec):
+    """`spec` with every such literal replaced by an ordinary unhashable one."""
+    if not has_flaky(spec):
+        return spec
+    if spec[0] == "known_u":
+        return ["known_u", "[1]", spec[2]] if "FlakyEq" in spec[1] else spec
+    if spec[0] == "annotated":  # metadata may hold specs that are not children
+        return with_children(["annotated", spec[1], [m for m in spec[2]]], [without_flaky(c) for c in children(spec)])
+    return with_children(spec, [without_flaky(c) for c in children(spec)])
+
+
 def _is_bottom_spec(s) -> bool:
     """Never / the Any[unreachable] marker (possibly annotated): unite_values never keeps them beside other members."""
     while s[0] == "annotated":
@@ -928,7 +945,7 @@ def random_map_spec(rng, depth: int = 1, wide: bool = False):
             out["P"] = ["paramspec", "Q"]
         else:
             anns = [random_spec(rng, max(0, depth - 1), False, True) for _ in range(3)]
-            anns = [["typed", "int"] if a[0] in ("seq", "typeddict") else a for a in anns]
+            anns = [["typed", "int"] if a[0] in ("seq", "typeddict") or (spec_typevars(a) & domain) else a for a in anns]
             params = [["q0", "pk", None, anns[0]], ["q1", "va", None, anns[1]], ["q2", "ko", None, anns[2]]]
             out["P"] = ["callable", [p for p in params if rng.random() < 0.6], ["known", "None"], None]
     return out
